@@ -328,6 +328,9 @@ def parse_facebook_url(url, allow_relative_urls=False):
     if "/videos/" in splitted.path:
         parts = pathsplit(splitted.path)
 
+        if len(parts) < 3:
+            return None
+
         return FacebookVideo(parts[2], parent_id=parts[0])
 
     # Photos
@@ -361,6 +364,9 @@ def parse_facebook_url(url, allow_relative_urls=False):
     if "/photos/" in splitted.path:
         parts = pathsplit(splitted.path)
 
+        if len(parts) < 4:
+            return None
+
         parent_id_or_handle = parts[0]
         album_id = parts[2].replace("a.", "")
         photo_id = parts[3]
@@ -379,11 +385,17 @@ def parse_facebook_url(url, allow_relative_urls=False):
         parts = pathsplit(splitted.path)
 
         if parts[0] == "groups":
+            if len(parts) < 4:
+                return None
+
             group_id_or_handle = parts[1]
 
             if NUMERIC_ID_RE.match(group_id_or_handle):
                 return FacebookPost(parts[3], group_id=group_id_or_handle)
             return FacebookPost(parts[3], group_handle=group_id_or_handle)
+
+        if len(parts) < 3:
+            return None
 
         parent_id_or_handle = parts[0]
 
@@ -399,7 +411,7 @@ def parse_facebook_url(url, allow_relative_urls=False):
         query = safe_parse_qs(splitted.query)
         parent_id = query.get("id", None)
 
-        if not parent_id:
+        if not parent_id or "story_fbid" not in query:
             return None
 
         return FacebookPost(query["story_fbid"][0], parent_id=parent_id[0])
@@ -408,7 +420,13 @@ def parse_facebook_url(url, allow_relative_urls=False):
     if "/groups/" in splitted.path:
         parts = pathsplit(splitted.path)
 
+        if len(parts) < 2:
+            return None
+
         if "/permalink/" in splitted.path:
+            if len(parts) < 4:
+                return None
+
             if is_facebook_id(parts[1]):
                 return FacebookPost(parts[3], group_id=parts[1])
 
@@ -422,12 +440,20 @@ def parse_facebook_url(url, allow_relative_urls=False):
     # Profile path
     if splitted.path == "/profile.php":
         query = safe_parse_qs(splitted.query)
+
+        if "id" not in query:
+            return None
+
         user_id = query["id"][0]
         return FacebookUser(user_id)
 
     # People path
     if splitted.path.startswith("/people"):
         parts = pathsplit(splitted.path)
+
+        if len(parts) < 3:
+            return None
+
         user_id = parts[2]
         return FacebookUser(user_id)
 
